@@ -304,6 +304,38 @@ fn perform(st: &mut State, op: &Json, idx: usize) {
                 }
             }
         }
+        "import_public" => {
+            let t = op["target"].as_u64().unwrap_or(0) as usize;
+            let k = op["name"].as_u64().unwrap_or(0) as usize;
+            match frozen_at(st, t) {
+                None => st.entities.push(None),
+                Some(src) => {
+                    let mut names: Vec<String> = src.names().map(|n| n.as_str().to_owned()).filter(|n| !n.starts_with('_')).collect();
+                    names.sort();
+                    let fm = Module::with_temp_heap(|module| {
+                        module.import_public_symbols(&src);
+                        if !names.is_empty() {
+                            let n = &names[k % names.len()];
+                            let text = format!("held = [{n}, {{\"k\": {n}}}]\ndef geti(x):\n    return [{n}, x]\n");
+                            let mut eval = Evaluator::new(&module);
+                            if let Ok(ast) = kit::parse(&format!("m{idx}.star"), &text) {
+                                let _ = eval.eval_module(ast, kit::globals());
+                            }
+                        }
+                        module.freeze()
+                    });
+                    drop(src);
+                    match fm {
+                        Ok(fm) => {
+                            let recorded = observe_frozen(&fm);
+                            bump(st, "probe.import_public_symbols");
+                            st.entities.push(Some(Entity::Frozen { fm, recorded }));
+                        }
+                        Err(_) => st.entities.push(None),
+                    }
+                }
+            }
+        }
         "globals" => {
             // Build Globals from handles, following the documented add_reference protocol.
             let ts: Vec<usize> = op["targets"].as_array().map(|a| a.iter().filter_map(|x| x.as_u64().map(|x| x as usize)).collect()).unwrap_or_default();
@@ -510,6 +542,10 @@ impl World for C13 {
                 let stmts: Vec<String> = stmts.into_iter().filter(|s| !s.starts_with("emit(")).collect();
                 ops.push(json!({"op": "build", "thread": thread, "deps": deps, "stmts": stmts, "extra": wl.chance(1, 3)}));
                 ents.push(G::Frozen(exports));
+            } else if r < 32 {
+                let t = frozen[wl.usize(frozen.len())];
+                ops.push(json!({"op": "import_public", "thread": thread, "target": t, "name": wl.below(64)}));
+                ents.push(G::Frozen(vec![("held".to_owned(), Kind::List), ("geti".to_owned(), Kind::Func1)]));
             } else if r < 36 {
                 let t = frozen[wl.usize(frozen.len())];
                 ops.push(json!({"op": "clone", "thread": thread, "target": t}));
